@@ -166,10 +166,10 @@ func AnyCut(cuts ...EdgeCut) EdgeCut {
 // ---- package-level helpers -------------------------------------------------------
 
 type PkgInfo struct {
-	c     *core.Ctx
-	Rel   string
-	Pkg   *ssa.Package
-	Funcs []*ssa.Function
+	c       *core.Ctx
+	Rel     string
+	Pkg     *ssa.Package
+	Funcs   []*ssa.Function
 	callers map[*ssa.Function][]*ssa.Function
 }
 
@@ -365,8 +365,8 @@ func sortedKeys[V any](m map[string]V) []string {
 // FieldSpec: every Build() of Builder in the package must call each required
 // setter with an argument whose provenance matches the regexp.
 type FieldSpec struct {
-	Builder string            // "mem.ReadReqBuilder"
-	Require map[string]string // setter -> regexp on provenance of first arg
+	Builder  string            // "mem.ReadReqBuilder"
+	Require  map[string]string // setter -> regexp on provenance of first arg
 	MinSites int
 	// OnlyIn restricts the spec to chains inside functions whose name matches (optional).
 	OnlyIn string
